@@ -495,6 +495,11 @@ def eval_cond(e: ast.AST, env: dict, func=None) -> bool | None:
             v = env.get(f"{rt} == {lt}")
         if v is None:
             v = _env_fn(env, key, ast.Compare(left=l, ops=[pos()], comparators=[r]))
+        if v is None and isinstance(l, ast.Name):
+            # `tmp = a.b.c` ... `if tmp is None`: classify the comparison on the attribute chain the temporary stands for
+            d = _single_local_def(func, l.id)
+            if isinstance(d, (ast.Attribute, ast.Name, ast.Subscript)):
+                v = _env_fn(env, f"{atom_text(d)} {_OPTXT.get(pos, pos.__name__)} {rt}", ast.Compare(left=d, ops=[pos()], comparators=[r]))
         if v is None:
             return None
         return (not v) if neg else v
@@ -506,8 +511,43 @@ def eval_cond(e: ast.AST, env: dict, func=None) -> bool | None:
         # a local boolean with a single definition: evaluate its defining expression
         d = _single_local_def(func, e.id)
         if d is not None and not (isinstance(d, ast.Name) and d.id == e.id):
-            return eval_cond(d, env, None)
+            return eval_cond(d, env, func if isinstance(d, ast.Call) else None)
+    if v is None and isinstance(e, ast.Call):
+        return _predicate_value(func, e, env)
     return v
+
+
+PREDICATE_RESOLVER = None  # set by the engine: (func, call) -> list[FuncInfo]
+_PRED_DEPTH = [0]
+
+
+def _predicate_value(func, call: ast.Call, env: dict):
+    """Value of a call to a small synchronous predicate helper (nested function / private method) under env: evaluate its returns."""
+    if PREDICATE_RESOLVER is None or func is None or _PRED_DEPTH[0] > 2:
+        return None
+    try:
+        cals = PREDICATE_RESOLVER(func, call)
+    except Exception:  # noqa: BLE001
+        return None
+    if len(cals) != 1:
+        return None
+    cal = cals[0]
+    if cal.is_async or isinstance(cal.node, ast.Lambda) or len(list(ast.walk(cal.node))) > 400:
+        return None
+    g = build_cfg(cal)
+    _PRED_DEPTH[0] += 1
+    try:
+        r = reach_under(g, env, NORMAL_KINDS)
+        vals = set()
+        for n in g.nodes:
+            if n.kind == "return" and n.id in r and isinstance(n.ast, ast.Return):
+                v = n.ast.value
+                vals.add(eval_cond(v, env, cal) if v is not None else False)
+    finally:
+        _PRED_DEPTH[0] -= 1
+    if len(vals) == 1:
+        return vals.pop()
+    return None
 
 
 def _env_fn(env: dict, key: str, node: ast.AST):
